@@ -34,6 +34,7 @@ type fn struct {
 	dom      func(c *smt.Ctx, v in) *smt.Expr
 	spec     func(c *smt.Ctx, v in) out
 	thorough bool // only in the thorough tier
+	maxW     int  // widest UTF-8 class exercised (0 = all of the tier); cells beyond it did not finish in the thorough budget
 }
 
 func always(c *smt.Ctx, v in) *smt.Expr { return c.True() }
@@ -178,19 +179,19 @@ var funcs = []fn{
 		spec: func(c *smt.Ctx, v in) out { return out{s: specSorted(c, v.a)} }},
 
 	// ------------------------------------------------------------------ Duden/Texte
-	{name: "trima", fam: "text", params: []string{pTextRef, pZ}, ret: "nichts", body: "Entferne alle z vor a.", observe: "a",
+	{name: "trima", maxW: 2, fam: "text", params: []string{pTextRef, pZ}, ret: "nichts", body: "Entferne alle z vor a.", observe: "a",
 		doc: "Trim_Anfang", dom: always,
 		spec: func(c *smt.Ctx, v in) out {
 			l := specLead(c, v.a, v.z)
 			return out{s: specSub(c, v.a, l, c.Sub(bv(c, len(v.a)), l), 32)}
 		}},
-	{name: "trime", fam: "text", params: []string{pTextRef, pZ}, ret: "nichts", body: "Entferne alle z nach a.", observe: "a",
+	{name: "trime", maxW: 2, fam: "text", params: []string{pTextRef, pZ}, ret: "nichts", body: "Entferne alle z nach a.", observe: "a",
 		doc: "Trim_Ende", dom: always,
 		spec: func(c *smt.Ctx, v in) out {
 			t := specLead(c, rev(v.a), v.z)
 			return out{s: specSub(c, v.a, bv(c, 0), c.Sub(bv(c, len(v.a)), t), 32)}
 		}},
-	{name: "trim", fam: "text", params: []string{pTextRef, pZ}, ret: "nichts", body: "Entferne alle z vor und nach a.", observe: "a",
+	{name: "trim", maxW: 2, fam: "text", params: []string{pTextRef, pZ}, ret: "nichts", body: "Entferne alle z vor und nach a.", observe: "a",
 		doc: "Trim", dom: always,
 		spec: func(c *smt.Ctx, v in) out {
 			n := bv(c, len(v.a))
@@ -199,7 +200,7 @@ var funcs = []fn{
 			rest := c.Ite(c.Eq(l, n), bv(c, 0), c.Sub(c.Sub(n, l), t))
 			return out{s: specSub(c, v.a, l, rest, 32)}
 		}},
-	{name: "trimv", fam: "text", params: []string{pTextRef, pZ}, ret: "text", body: "Gib a mit allen z davor und danach entfernt zurück.", observe: "ret", keepsA: true,
+	{name: "trimv", maxW: 2, fam: "text", params: []string{pTextRef, pZ}, ret: "text", body: "Gib a mit allen z davor und danach entfernt zurück.", observe: "ret", keepsA: true,
 		doc: "Trim_Wert (value parameter: the caller's text is unchanged)", dom: always,
 		spec: func(c *smt.Ctx, v in) out {
 			n := bv(c, len(v.a))
@@ -316,7 +317,7 @@ var funcs = []fn{
 			k := clampS(c, v.x, bv(c, 0), n)
 			return out{s: specSub(c, v.a, bv(c, 0), c.Sub(n, k), 32)}
 		}},
-	{name: "split", fam: "text", params: []string{pTextRef, pZ}, ret: "textlist", body: "Gib a an z gespalten zurück.", observe: "ret", keepsA: true, minA: 1,
+	{name: "split", maxW: 2, fam: "text", params: []string{pTextRef, pZ}, ret: "textlist", body: "Gib a an z gespalten zurück.", observe: "ret", keepsA: true, minA: 1,
 		doc: "Spalte: the pieces between the occurrences of the character (non-empty text)", dom: always,
 		spec: specSplit},
 	{name: "lowerc", fam: "text", params: []string{pZ}, ret: "char", body: "Gib z als kleiner Buchstabe zurück.", observe: "ret", maxA: -1,
@@ -355,7 +356,7 @@ var funcs = []fn{
 			}
 			return out{s: concSeq(c, r)}
 		}},
-	{name: "splitt", fam: "text", params: []string{pTextRef, pTextB}, ret: "textlist", body: "Gib a an b gespalten zurück.", observe: "ret", keepsA: true, minA: 1, maxB: 2, thorough: true,
+	{name: "splitt", maxW: 2, fam: "text", params: []string{pTextRef, pTextB}, ret: "textlist", body: "Gib a an b gespalten zurück.", observe: "ret", keepsA: true, minA: 1, maxB: 2, thorough: true,
 		doc: "Spalte_Text: the pieces between the non-overlapping occurrences (from the left) of a separator of two characters", dom: func(c *smt.Ctx, v in) *smt.Expr { return c.BoolC(len(v.b) == 2) },
 		spec: specSplitText},
 	{name: "hamm", fam: "text", params: []string{pTextRef, pTextB}, ret: "zahl", body: "Gib die Hamming-Distanz zwischen a und b zurück.", observe: "ret", keepsA: true, maxB: 2,
